@@ -64,6 +64,20 @@ T3 = {
  'C11/b': ('7effe7d', 'pkg/reflectmath.go: int-vs-uint arms of the four ordering comparisons run in the unsigned domain', 'ordering comparison of a negative signed operand with an unsigned one in a when', 'other-rule', 'OPT-9/OPT-10 (of C19/C05) reported it; the evaluation core added to C01, C02, C03, C11'),
  'C12/a': ('7effe7d', 'ast/Serializer.go: new helper intToUint64 (returns 0 for negative input) used by the stream writers', 'rule with a negative salience, stored and loaded', 'caught', ''),
  'C12/b': ('7effe7d', 'ast/KnowledgeBase.go LoadKnowledgeBaseFromReader: registration folded into overwrite || !exist || len(existing.RuleEntries) == 0', 'library holds an empty placeholder for the stream\'s name/version and overwrite=false', 'caught', ''),
+ 'C01/a': ('ab880df', 'ast/ArrayMapSelector.go Clone: clone-table lookup for the index expression dropped (third appearance of the duplicate-clone mechanism)', 'instance from NewKnowledgeBaseInstance; X[expr] whose expr also occurs earlier; copy-valued expression; an action falsifies the condition', 'caught', 'clone fidelity had been added to C01 after round-3 batch 1'),
+ 'C01/b': ('ab880df', 'model/JsonDataAccessLayer.go: JSON nodes remember the member wrappers they hand out; dropped in SetObjectValueByField but not in SetMapValueAt', 'JSON fact; member read with the dot form and written through the selector form', 'missed', 'ASG-5 value nodes are views (no method but constructors and AppendValue stores into the node)'),
+ 'C05/a': ('ab880df', 'model/GoDataAccessLayer.go CallFunction: argument-count pre-check that demands len(args) >= NumIn() for variadic methods', 'variadic fact method or Max/Min called with only its fixed arguments', 'missed', 'OPT-16 arity pre-checks agree with reflect\'s rule'),
+ 'C05/b': ('ab880df', 'builder/RuleBuilder.go: rule text normalised before lexing (BOM stripped, CRLF -> LF), also inside string literals', 'string literal containing a raw CR LF', 'missed', 'LDR-13 the text lexed is byte for byte what the resource delivered'),
+ 'C06/a': ('ab880df', 'ast/KnowledgeBase.go new BuiltIns(dataCtx) caching the built-in host per knowledge base (DataContext bound at first use); engine prologues use it', 'instance used for a second Execute with another data context and a rule that relies on Complete()', 'other-rule', 'INV-7 (of C01/C02/C08) reported it; INV-7 added to C06'),
+ 'C06/b': ('ab880df', 'engine/GruleEngine.go: completion detected as an edge (IsComplete() && !completedBefore)', 'data context already completed before the run and the run relies on Complete() again', 'caught', ''),
+ 'C08/a': ('ab880df', 'ast/ArgumentList.go Clone: lookup with the list\'s own id (same slip as C11_e)', 'instance reused with facts that change an expression used both as argument and elsewhere', 'caught', 'clone fidelity had been added to C08 after round-3 batch 1'),
+ 'C08/b': ('ab880df', 'ast/KnowledgeBase.go BuiltIns(dataCtx) host cached per knowledge base (same as C06_e)', 'second call on an instance with a new data context and a rule calling Complete()', 'caught', ''),
+ 'C10/a': ('ab880df', 'engine/GruleEngine.go: DEFUNC registration folded into a helper that keeps one BuiltInFunctions in a new GruleEngine field and re-points it per run', 'two executions on the same engine overlap (nested Execute from a fact method, or two goroutines)', 'other-rule', 'INV-7 reported it; INV-7 added to C10'),
+ 'C10/b': ('ab880df', 'ast/DataContext.go IsComplete returns the flag and clears it', 'Complete() not last and a later action of the same rule queries IsComplete()', 'caught', ''),
+ 'C13/a': ('ab880df', 'builder/RuleBuilder.go + ast/WorkingMemory.go: the cleanup of a rejected text moved before the builder adds the good rules; RemoveUnreachable no longer re-indexes', 'good rule followed by a broken rule in one resource, then a second build re-using the same call text', 'other-rule', 'INV-13 / LDR-5 / LDR-2 reported it; INV-13, INV-5, INV-10 added to C13'),
+ 'C13/b': ('ab880df', 'ast/ThenExpression.go Execute: clears the memo flag along the whole chain of method-call receivers of a call statement', 'statement whose receiver is a side-effect-free accessor also used in conditions (F.GetAudit().Note();)', 'caught', ''),
+ 'C14/a': ('ab880df', 'ast/ExpressionAtom.go Evaluate: the scattered memo stores replaced by one deferred e.Evaluated = remember && err == nil (runs during a panic with err still nil)', 'an atom that evaluated before panics later and is read again without a reset', 'caught', 'reported through the changed shape of the memo stores (INV-2/3/4), not by a rule about deferred stores'),
+ 'C14/b': ('ab880df', 'new pkg.ArrayIndex helper without a default branch used at the three array-selector sites', 'slice selected with a string, bool or nil: element 0 is read or overwritten silently', 'missed', 'ASG-6 an array selector is converted by an operation that fails for a non-integer'),
 }
 
 def main():
